@@ -9,6 +9,7 @@ the call's destination).  Closures are not touched (they are not direct calls), 
 The result is an ordinary Body; locals and blocks of the callee are appended with an offset, so places, projections and constants keep
 their meaning.  `f["inlined"]` lists what was spliced in (for the evidence)."""
 import copy
+import re
 from vlib.mir import Body, norm
 
 
@@ -78,6 +79,19 @@ def _term(t, lo, bo, ret_to):
     return t
 
 
+def _repromote(x, po):
+    """renumber `..::promoted[k]` constants of a spliced callee"""
+    if isinstance(x, dict):
+        return {k: _repromote(v, po) for k, v in x.items()}
+    if isinstance(x, list):
+        if len(x) >= 3 and x[0] == "c" and isinstance(x[2], str):
+            m = re.search(r"::promoted\[(\d+)\]$", x[2])
+            if m:
+                return x[:2] + [x[2][:m.start()] + "::promoted[%d]" % (int(m.group(1)) + po)] + x[3:]
+        return [_repromote(v, po) for v in x]
+    return x
+
+
 def inlined(prog, body, depth=2, max_blocks=200, accept=None, unify=True):
     """`body` with direct calls to same-file, non-closure workspace functions spliced in (repeated `depth` times)."""
     f = copy.deepcopy(body.f)
@@ -105,8 +119,11 @@ def inlined(prog, body, depth=2, max_blocks=200, accept=None, unify=True):
             args, dest, target, loc = t[2], t[3], t[4], (t[6] if len(t) > 6 else [0, 0, 0])
             # a block that copies the callee's return place into the destination and continues after the call
             retbb = bo + len(h.bbs)
+            # the callee's promoted constants move with it (`x == TokenType::Semicolon` compares with `callee::promoted[k]`)
+            po = len(f.get("promoted") or [])
+            f["promoted"] = list(f.get("promoted") or []) + copy.deepcopy(h.f.get("promoted") or [])
             for hb in h.bbs:
-                f["bbs"].append({"s": [_stmt(s, lo) for s in hb["s"]], "t": _term(hb["t"], lo, bo, retbb), "cu": hb.get("cu", False)})
+                f["bbs"].append(_repromote({"s": [_stmt(s, lo) for s in hb["s"]], "t": _term(hb["t"], lo, bo, retbb), "cu": hb.get("cu", False)}, po))
             f["bbs"].append({"s": [["=", dest, ["use", ["mv", [lo, []]]], loc]], "t": ["goto", target], "cu": False})
             # the call block: parameters := arguments, then jump to the callee's entry
             pre = [["=", [lo + 1 + k, []], ["use", a], loc] for k, a in enumerate(args)]
